@@ -3705,17 +3705,21 @@ func (d *simpleDecDriverBytes) nextValueBytesBdReadR() {
 		}
 
 		if bArray {
+			d.d.depthIncr()
 			for i := uint(0); i < length; i++ {
 				d.readNextBd()
 				d.nextValueBytesBdReadR()
 			}
+			d.d.depthDecr()
 		} else if bMap {
+			d.d.depthIncr()
 			for i := uint(0); i < length; i++ {
 				d.readNextBd()
 				d.nextValueBytesBdReadR()
 				d.readNextBd()
 				d.nextValueBytesBdReadR()
 			}
+			d.d.depthDecr()
 		} else {
 			d.r.skip(length)
 		}
@@ -7470,17 +7474,21 @@ func (d *simpleDecDriverIO) nextValueBytesBdReadR() {
 		}
 
 		if bArray {
+			d.d.depthIncr()
 			for i := uint(0); i < length; i++ {
 				d.readNextBd()
 				d.nextValueBytesBdReadR()
 			}
+			d.d.depthDecr()
 		} else if bMap {
+			d.d.depthIncr()
 			for i := uint(0); i < length; i++ {
 				d.readNextBd()
 				d.nextValueBytesBdReadR()
 				d.readNextBd()
 				d.nextValueBytesBdReadR()
 			}
+			d.d.depthDecr()
 		} else {
 			d.r.skip(length)
 		}
